@@ -325,7 +325,7 @@ def main(mod):
     # replays
     replays = []
     if total.violations:
-        rdir = os.path.join(VERIF, 'replays')
+        rdir = os.environ.get('VERIF_REPLAY_DIR') or os.path.join(VERIF, 'replays')
         os.makedirs(rdir, exist_ok=True)
         for n, v in enumerate(total.violations[:10]):
             rp = os.path.join(rdir, '%s-%s-s%d-%d.json' % (pid, args.tier, args.seed, n))
@@ -362,7 +362,7 @@ def main(mod):
         'property_id': pid, 'tier': args.tier, 'seed': args.seed, 'level': mod.LEVEL, 'coverage': cov,
         'assumptions': list(mod.ASSUMPTIONS), 'wall_s': round(time.time() - t0, 2), 'violations': total.nviol,
     }
-    evdir = os.path.join(VERIF, 'evidence')
+    evdir = os.environ.get('VERIF_EVIDENCE_DIR') or os.path.join(VERIF, 'evidence')
     os.makedirs(evdir, exist_ok=True)
     evp = os.path.join(evdir, pid + '.json')
     try:
